@@ -261,7 +261,8 @@ Proof.
 Qed.
 
 (* an ASCII-only instance of the Unicode record: the four facts about the newline hold, and on
-   P = "It's $5. e.g.\n\n", D = "x@y.z 7th \"q\"" the lexer and the passes of Document::parse split as stated *)
+   P = <It's $5. e.g.> + blank line, D = <x@y.z 7th> + a quoted q, the lexer and the passes of Document::parse
+   split as stated *)
 Definition ascii_uni : uni :=
   mkuni (fun c => mem_n c [9; 10; 11; 12; 13; 32]%N) is_ascii_digit is_ascii_alphabetic is_ascii_alphabetic.
 Definition ex_P : text := [73; 116; 39; 115; 32; 36; 53; 46; 32; 101; 46; 103; 46; 10; 10]%N.
@@ -300,8 +301,8 @@ Proof.
 Qed.
 
 (* the quote-free premise is needed (quote pairing is positional over the whole document): with one double
-   quote in P = "\"a.\n\n", the quotes of D = "\"b\"" pair up differently behind P than alone, and P's own quote
-   gets a twin *)
+   quote in P (a quote, the letter a, a period, a blank line) the two quotes of D (quote b quote) pair up
+   differently behind P than alone, and the quote of P gets a twin *)
 Example C12_quote_premise_needed :
   let P := [34; 97; 46; 10; 10]%N in let D := [34; 98; 34]%N in
   ~ quote_free P /\
